@@ -173,7 +173,7 @@ MANIFEST = {
             "(call graph over the parsed package) each temporary overwrite of object state is shown restored on every exit including the "
             "exceptional edge of every call (T1), no other write to pre-existing object state is reachable (T2), and no caller-owned array "
             "reaches an in-place sink without a copy (T3). This covers every failure point at once, which sampled failing calls cannot; it "
-            "does not decide numerical repeatability. Round 3: `except Exception` does not count as covering all exits (KeyboardInterrupt from a user field function), the J and M branches of every field function are analysed for in-place sinks, and tile_group_property returns a new array on every path.",
+            "does not decide numerical repeatability. Round 3: `except Exception` does not count as covering all exits (KeyboardInterrupt from a user field function), the J and M branches of every field function are analysed for in-place sinks, and tile_group_property returns a new array on every path. Rounds 4-5: T3 also covers class-level tables, T4 the method forms, T5 read-only views, T6 module-level containers, T1c bit-exact restores.",
     "design_ref": "DESIGN.md §3 C08",
     "note": "Trusted: python ast; name-based call graph (over-approximate, ambiguity rule stated in evidence); NumPy copy/view table; "
             "triaged lazy style initialisation and Sensor(pixel=...) construction.",
